@@ -153,6 +153,9 @@ type Func struct {
 	NInst  int
 	// NoAlias[i]: parameter i carries the noalias attribute
 	NoAlias []bool
+	// SignExt[i] / ZeroExt[i]: parameter i carries the signext / zeroext attribute
+	SignExt []bool
+	ZeroExt []bool
 }
 
 type Global struct {
@@ -257,6 +260,11 @@ func ParseFile(path string) (*Module, error) {
 			na := C.CString("noalias")
 			fn.NoAlias = append(fn.NoAlias, C.paramHasAttr(f, C.unsigned(i), na, 7) != 0)
 			C.free(unsafe.Pointer(na))
+			se, ze := C.CString("signext"), C.CString("zeroext")
+			fn.SignExt = append(fn.SignExt, C.paramHasAttr(f, C.unsigned(i), se, 7) != 0)
+			fn.ZeroExt = append(fn.ZeroExt, C.paramHasAttr(f, C.unsigned(i), ze, 7) != 0)
+			C.free(unsafe.Pointer(se))
+			C.free(unsafe.Pointer(ze))
 		}
 	}
 	for g := C.LLVMGetFirstGlobal(m); g != nil; g = C.LLVMGetNextGlobal(g) {
